@@ -654,6 +654,16 @@ class Double:
     def __init__(self, run: Run, path, j, spec) -> None:
         self.run, self.path, self.j, self.spec = run, path, j, spec
 
+    # "twin" disposables compare EQUAL to each other (value objects used as resources: a State / dataclass that is also a
+    # context manager, two connections with the same settings): each is still its own resource
+    def __eq__(self, other):
+        if isinstance(other, Double) and self.spec.get("twin") and other.spec.get("twin"):
+            return True
+        return self is other
+
+    def __hash__(self):
+        return 7 if self.spec.get("twin") else id(self)
+
     async def _behave(self, phase, beh):
         b = beh["b"]
         if b.startswith("suspend"):
@@ -693,6 +703,9 @@ class Double:
 
     async def __aexit__(self, et, ev, tb):
         self.run.ev("d_exit_call", self.path, j=self.j, et=et, exc=ev, has_tb=tb is not None)
+        if self.spec["exit"].get("release") is not None:
+            # closing this resource is what lets tasks that use it finish (a queue being closed, a connection shut down)
+            self.run.release(self.spec["exit"]["release"])
         await self._behave("exit", self.spec["exit"])
         self.run.ev("d_exit_done", self.path, j=self.j)
         # some context managers report "handled"/"closed" by returning True; scopes document no suppression
@@ -751,8 +764,11 @@ def execute(prog, inject_at=None, releases=(), run_cls=Run, after=None):
                     if fr is not None:
                         codes.append(fr.f_code)
                     c = getattr(c, "cr_await", None) or getattr(c, "gi_yieldfrom", None) or getattr(c, "ag_await", None)
+                # inside the exit of the task group: the stdlib TaskGroup's, or haiway's own task-group context (an
+                # implementation that waits for its tasks itself is in the same place as far as the caller can tell)
                 holder["in_group_exit"] = any(
-                    co.co_name == "__aexit__" and co.co_filename.replace("\\", "/").endswith("asyncio/taskgroups.py") for co in codes
+                    co.co_name == "__aexit__" and co.co_filename.replace("\\", "/").endswith(("asyncio/taskgroups.py", "haiway/context/tasks.py"))
+                    for co in codes
                 )
             except Exception:  # noqa: BLE001
                 holder["in_group_exit"] = None
